@@ -6,6 +6,7 @@ from ..rateprobe import run_case, common_buckets, exc_detail
 from ..util import KIND, EPS
 
 PROPERTY = "C07"
+PYTEST_PREFIX = "C07/"
 LEVEL = "exploration"
 RULE = ("Contract on every real rate() return: S = sum_i (sum_j dmu_ij)/(sum_j sigma_ij^2+tau^2) computed from the "
         "pre-call snapshot and the returned values must satisfy |S| <= sum_ij (1e-9|dmu_ij| + 4eps(|mu_prior|+|mu_post|))"
